@@ -248,6 +248,6 @@ func executeCluster(sc CScript, rep *kit.Report) error {
 }
 
 func TestC12Cluster(t *testing.T) {
-	r := &kit.Runner[CScript]{Name: "TestC12Cluster", Exec: executeCluster, ReplayRepeat: 40}
+	r := &kit.Runner[CScript]{Name: "TestC12Cluster", Exec: executeCluster, ReplayRepeat: 150}
 	r.Run(t, genCScript)
 }
